@@ -1,4 +1,5 @@
 import MdkVerif.Model.Crash
+import MdkVerif.Model.CrashCore
 import MdkVerif.Proofs.Crash
 /-
   C12 — A crash at any storage step leaves a recoverable database (storage-level part).
@@ -105,5 +106,179 @@ theorem C12_full_false : ¬ C12_full := by
 /-- non-vacuity: a three-statement transaction cut after BEGIN + 2 statements -/
 example : crashAt 3 (txnCall true 0 [(· + 1), (· + 1), (· + 1)]) 10 = 10 ∧
     complete (txnCall true 0 [(· + 1), (· + 1), (· + 1)]) 10 = 13 := by decide
+
+/-! ## mdk-core level: death inside `process_message`, `process_welcome`, `merge_pending_commit`
+
+`Model.CrashCore`: a call is the ordered list of its storage effects as RECORDED on the real code (the
+observed sequence of crash classes along the ticks of every call must equal `CrashCore.classes kind` — the
+correspondence obligation checked on every run by `vlib/crashweng.py`).  None of these calls is bracketed
+by a transaction.  All statements below are for EVERY store on which the call runs for the first time. -/
+
+open CrashCore in
+/-- the abstract store, with the dedup record absent, nothing decrypted yet, record and MLS state in step -/
+def coreFresh (kind : CrashCore.Kind) (d : CrashCore.Db) : Prop := CrashCore.fresh kind d = true
+
+theorem saveSecret_idem (d : CrashCore.Db) :
+    CrashCore.applyW (CrashCore.applyW d .saveSecret) .saveSecret = CrashCore.applyW d .saveSecret := by
+  simp only [CrashCore.applyW]
+  by_cases h : d.mlsE ∈ d.secrets
+  · simp [h]
+  · simp [h]
+
+/-- **core_application_prefix.**  An application message: a death is recoverable exactly BEFORE OpenMLS
+    decrypts (after at most the lazily created exporter secret was saved): `save_processed_message` is not
+    the protecting write — the ratchet secret the decryption consumed is persisted first, so from then on
+    the retry is refused (`Unprocessable`, recorded as Failed) and the message is lost, whether or not its
+    row or its dedup record had been written. -/
+theorem core_application_prefix (d : CrashCore.Db) (hf : coreFresh .application d) :
+    CrashCore.recovered .application 0 d = true ∧ CrashCore.recovered .application 1 d = true ∧
+    CrashCore.recovered .application 2 d = false ∧ CrashCore.recovered .application 3 d = false ∧
+    CrashCore.recovered .application 4 d = false := by
+  simp only [coreFresh, CrashCore.fresh, Bool.and_eq_true, beq_iff_eq, Bool.not_eq_true'] at hf
+  obtain ⟨⟨⟨⟨h1, h2⟩, h3⟩, h4⟩, h5⟩ := hf
+  refine ⟨?_, ?_, ?_, ?_, ?_⟩
+  · simp [CrashCore.recovered, CrashCore.crashAt, CrashCore.writes, CrashCore.run, CrashCore.retry, h1, h2]
+  · have : CrashCore.retry .application (CrashCore.crashAt .application 1 d) = CrashCore.complete .application d := by
+      simp only [CrashCore.crashAt, CrashCore.writes, CrashCore.run, List.take, List.foldl, CrashCore.retry]
+      have hp : (CrashCore.applyW d .saveSecret).pm = 0 := by simp [CrashCore.applyW, h1]
+      have hc : (CrashCore.applyW d .saveSecret).consumed = false := by simp [CrashCore.applyW, h2]
+      simp only [hp, hc]
+      simp [CrashCore.complete, CrashCore.writes, CrashCore.run, List.foldl, saveSecret_idem]
+    simp [CrashCore.recovered, this]
+  · simp [CrashCore.recovered, CrashCore.obs, CrashCore.crashAt, CrashCore.writes, CrashCore.run, CrashCore.retry, CrashCore.complete, CrashCore.applyW, h1, h5]
+  · simp [CrashCore.recovered, CrashCore.obs, CrashCore.crashAt, CrashCore.writes, CrashCore.run, CrashCore.retry, CrashCore.complete, CrashCore.applyW, h1, h5]
+  · simp [CrashCore.recovered, CrashCore.obs, CrashCore.crashAt, CrashCore.writes, CrashCore.run, CrashCore.retry, CrashCore.complete, CrashCore.applyW, h5]
+
+/-- **core_commit_prefix.**  A commit of another member: recoverable only before the decryption; afterwards
+    the retry is refused in every prefix — with the snapshot left behind, with the MLS rows already at the
+    next epoch while the group record (and possibly the exporter secret) are still at the old one, or with
+    everything applied except the dedup record. -/
+theorem core_commit_prefix (d : CrashCore.Db) (hf : coreFresh .commit d) :
+    CrashCore.recovered .commit 0 d = true ∧ CrashCore.recovered .commit 1 d = true ∧
+    (∀ k, 2 ≤ k → k ≤ 5 → CrashCore.recovered .commit k d = false) ∧ CrashCore.recovered .commit 6 d = true := by
+  simp only [coreFresh, CrashCore.fresh, Bool.and_eq_true, beq_iff_eq, Bool.not_eq_true'] at hf
+  obtain ⟨⟨⟨h1, h2⟩, h3⟩, h4⟩ := hf
+  refine ⟨?_, ?_, ?_, ?_⟩
+  · simp [CrashCore.recovered, CrashCore.crashAt, CrashCore.writes, CrashCore.run, CrashCore.retry, h1, h2]
+  · have : CrashCore.retry .commit (CrashCore.crashAt .commit 1 d) = CrashCore.complete .commit d := by
+      simp only [CrashCore.crashAt, CrashCore.writes, CrashCore.run, List.take, List.foldl, CrashCore.retry]
+      have hp : (CrashCore.applyW d .saveSecret).pm = 0 := by simp [CrashCore.applyW, h1]
+      have hc : (CrashCore.applyW d .saveSecret).consumed = false := by simp [CrashCore.applyW, h2]
+      simp only [hp, hc]
+      simp [CrashCore.complete, CrashCore.writes, CrashCore.run, List.foldl, saveSecret_idem]
+    simp [CrashCore.recovered, this]
+  · intro k hk1 hk2
+    have : k = 2 ∨ k = 3 ∨ k = 4 ∨ k = 5 := by omega
+    rcases this with e | e | e | e <;> subst e <;>
+      simp [CrashCore.recovered, CrashCore.obs, CrashCore.crashAt, CrashCore.writes, CrashCore.run, CrashCore.retry, CrashCore.complete, CrashCore.applyW, h1] <;>
+      (try (intros; omega))
+  · simp [CrashCore.recovered, CrashCore.obs, CrashCore.crashAt, CrashCore.writes, CrashCore.run, CrashCore.retry, CrashCore.complete, CrashCore.applyW, h1]
+
+/-- **core_welcome_prefix.**  `process_welcome`: every prefix is recoverable — the group record and the
+    relays are idempotent upserts, and since /repo fed41a9 the welcome is stored BEFORE its processed-welcome
+    record, so the retry either starts over or finds the welcome by its rumor id and adds the record.
+    (`welcome_record_first_unrecoverable` below keeps the former order's failure as a closed witness.) -/
+theorem core_welcome_prefix (d : CrashCore.Db) (hf : coreFresh .welcome d) :
+    ∀ k, CrashCore.recovered .welcome k d = true := by
+  simp only [coreFresh, CrashCore.fresh, Bool.and_eq_true, Bool.not_eq_true'] at hf
+  obtain ⟨⟨h1, h2⟩, h3⟩ := hf
+  intro k
+  have : k = 0 ∨ k = 1 ∨ k = 2 ∨ k = 3 ∨ 4 ≤ k := by omega
+  rcases this with e | e | e | e | e
+  · subst e; simp [CrashCore.recovered, CrashCore.obs, CrashCore.crashAt, CrashCore.writes, CrashCore.run, CrashCore.retry, CrashCore.complete, CrashCore.applyW, h2, h3]
+  · subst e; simp [CrashCore.recovered, CrashCore.obs, CrashCore.crashAt, CrashCore.writes, CrashCore.run, CrashCore.retry, CrashCore.complete, CrashCore.applyW, h2, h3]
+  · subst e; simp [CrashCore.recovered, CrashCore.obs, CrashCore.crashAt, CrashCore.writes, CrashCore.run, CrashCore.retry, CrashCore.complete, CrashCore.applyW, h2, h3]
+  · subst e; simp [CrashCore.recovered, CrashCore.obs, CrashCore.crashAt, CrashCore.writes, CrashCore.run, CrashCore.retry, CrashCore.complete, CrashCore.applyW, h2, h3]
+  · have ht : (CrashCore.writes .welcome).take k = CrashCore.writes .welcome := List.take_of_length_le (by simp [CrashCore.writes]; omega)
+    simp only [CrashCore.recovered, CrashCore.crashAt, ht]
+    simp [CrashCore.obs, CrashCore.writes, CrashCore.run, CrashCore.retry, CrashCore.complete, CrashCore.applyW]
+
+/-- **core_merge_prefix.**  `merge_pending_commit`: the pending commit is deleted FIRST; a death right after
+    loses it (the commit was published, the others move on, this client can never apply its own commit); a
+    death after the MLS rows moved leaves the record one epoch behind. -/
+theorem core_merge_prefix (d : CrashCore.Db) (hf : coreFresh .merge d) :
+    CrashCore.recovered .merge 0 d = true ∧ CrashCore.recovered .merge 1 d = false ∧
+    CrashCore.recovered .merge 2 d = false := by
+  simp only [coreFresh, CrashCore.fresh, Bool.and_eq_true, beq_iff_eq] at hf
+  obtain ⟨h1, h2⟩ := hf
+  refine ⟨?_, ?_, ?_⟩ <;>
+    simp [CrashCore.recovered, CrashCore.obs, CrashCore.crashAt, CrashCore.writes, CrashCore.run, CrashCore.retry, CrashCore.complete, CrashCore.applyW, h1, h2]
+
+/-- the classification function is sound: whatever it calls recoverable is recovered, and nothing else is -/
+theorem core_classify_sound (kind : CrashCore.Kind) (d : CrashCore.Db) (hf : coreFresh kind d) (k : Nat)
+    (hk : k < (CrashCore.writes kind).length) :
+    (CrashCore.classify kind k).harmless = true ↔ CrashCore.recovered kind k d = true := by
+  cases kind with
+  | application =>
+    obtain ⟨a0, a1, a2, a3, a4⟩ := core_application_prefix d hf
+    have : k = 0 ∨ k = 1 ∨ k = 2 ∨ k = 3 ∨ k = 4 := by simp [CrashCore.writes] at hk; omega
+    rcases this with e | e | e | e | e <;> subst e <;> simp [CrashCore.classify, CrashCore.Class.harmless, *]
+  | commit =>
+    obtain ⟨a0, a1, a2, a3⟩ := core_commit_prefix d hf
+    have : k = 0 ∨ k = 1 ∨ (2 ≤ k ∧ k ≤ 5) ∨ k = 6 := by simp [CrashCore.writes] at hk; omega
+    rcases this with e | e | ⟨e1, e2⟩ | e
+    · subst e; simp [CrashCore.classify, CrashCore.Class.harmless, a0]
+    · subst e; simp [CrashCore.classify, CrashCore.Class.harmless, a1]
+    · have := a2 k e1 e2
+      have hk' : k = 2 ∨ k = 3 ∨ k = 4 ∨ k = 5 := by omega
+      rcases hk' with e | e | e | e <;> subst e <;> simp [CrashCore.classify, CrashCore.Class.harmless, this]
+    · subst e; simp [CrashCore.classify, CrashCore.Class.harmless, a3]
+  | welcome =>
+    have := core_welcome_prefix d hf k
+    have hk' : k = 0 ∨ k = 1 ∨ k = 2 ∨ k = 3 := by simp [CrashCore.writes] at hk; omega
+    rcases hk' with e | e | e | e <;> subst e <;> simp [CrashCore.classify, CrashCore.Class.harmless, this]
+  | merge =>
+    obtain ⟨a0, a1, a2⟩ := core_merge_prefix d hf
+    have : k = 0 ∨ k = 1 ∨ k = 2 := by simp [CrashCore.writes] at hk; omega
+    rcases this with e | e | e <;> subst e <;> simp [CrashCore.classify, CrashCore.Class.harmless, *]
+
+/-- the full-strength property at the mdk-core level: EVERY crash point of EVERY call is recoverable -/
+def C12_core_full : Prop :=
+  ∀ (kind : CrashCore.Kind) (d : CrashCore.Db) (k : Nat), coreFresh kind d → CrashCore.recovered kind k d = true
+
+/-- a store with a joined group at epoch 5 -/
+def coreDemo : CrashCore.Db :=
+  { mlsE := 5, recE := 5, secrets := [4, 5], pm := 0, msgs := 3, snaps := 1, pending := false, consumed := false,
+    groupRow := true, pwRow := true, welcomeRow := true, ptr := false }
+
+/-- **C12_witness_torn_merge.**  Death inside the processing of a commit after OpenMLS merged it: the MLS
+    rows are at epoch 6, the group record at 5, no exporter secret for 6, the snapshot is left behind; the
+    retry of the same commit is refused and recorded as Failed.  (`corpus/C12/core_invitee.wtrace`) -/
+theorem C12_witness_torn_merge :
+    let c := CrashCore.crashAt .commit 4 coreDemo
+    c.mlsE = 6 ∧ c.recE = 5 ∧ c.secrets = [4, 5] ∧ c.snaps = 2 ∧
+    (CrashCore.retry .commit c).pm = 3 ∧ (CrashCore.retry .commit c).recE = 5 ∧
+    CrashCore.recovered .commit 4 coreDemo = false := by decide
+
+/-- **C12_witness_message_lost.**  Death between OpenMLS's decryption of an application message and the
+    message row: nothing visible changed, yet the message can never be read. -/
+theorem C12_witness_message_lost :
+    let c := CrashCore.crashAt .application 2 coreDemo
+    c.msgs = 3 ∧ c.pm = 0 ∧ (CrashCore.retry .application c).msgs = 3 ∧ (CrashCore.retry .application c).pm = 3 ∧
+    (CrashCore.complete .application coreDemo).msgs = 4 := by decide
+
+/-- **C12_witness_pending_commit_lost.** -/
+theorem C12_witness_pending_commit_lost :
+    let d := { coreDemo with pending := true }
+    (CrashCore.crashAt .merge 1 d).pending = false ∧ (CrashCore.crashAt .merge 1 d).mlsE = 5 ∧
+    (CrashCore.retry .merge (CrashCore.crashAt .merge 1 d)).mlsE = 5 ∧ (CrashCore.complete .merge d).mlsE = 6 := by decide
+
+/-- the former order of `process_welcome` (record first): the prefix with the record and without the welcome
+    is answered from the dedup record for ever — what the reordering in /repo fed41a9 removed -/
+theorem welcome_record_first_unrecoverable :
+    let d : CrashCore.Db := { coreDemo with groupRow := false, pwRow := false, welcomeRow := false }
+    let torn := CrashCore.run d [.saveGroup, .saveRelays, .savePw]
+    (CrashCore.retry .welcome torn).welcomeRow = false ∧ (CrashCore.complete .welcome d).welcomeRow = true := by decide
+
+/-- a death after the message row and its Processed record, before the group's last-message pointer moved:
+    the retry is refused (the ciphertext is consumed) and the pointer never names the message -/
+theorem C12_witness_pointer_never_set :
+    let c := CrashCore.crashAt .application 4 coreDemo
+    c.msgs = 4 ∧ c.pm = 1 ∧ (CrashCore.retry .application c).ptr = false ∧ (CrashCore.complete .application coreDemo).ptr = true := by decide
+
+theorem C12_core_full_false : ¬ C12_core_full := by
+  intro h
+  have := h .commit coreDemo 4 (by simp [coreFresh]; decide)
+  revert this; decide
 
 end MdkVerif.Props.C12
